@@ -227,3 +227,92 @@ T("C16", "_from_iterable returning a frozenset-built set", "util.py",
   "        return set(it)\n", "        return set(frozenset(it))\n")
 T("C16", "update iterating itertools.chain", "byteinterval.py",
   "set().union(*iterables) - self._data", "set(itertools.chain(*iterables)) - self._data")
+
+# ---------------------------------------------------------------------------
+# C07 / C08
+F("C07", "revert the string byte-count fix", "serialization.py",
+  """        encoded = val.encode("utf-8")
+        Uint64Codec.encode(out, len(encoded))
+        out.write(encoded)""",
+  """        Uint64Codec.encode(out, len(val))
+        out.write(val.encode())""", "R07.2")
+F("C07", "mapping decoder reads the value before the key", "serialization.py",
+  """            key = serialization._decode_tree(raw_bytes, key_type, get_by_uuid)
+            val = serialization._decode_tree(raw_bytes, val_type, get_by_uuid)""",
+  """            val = serialization._decode_tree(raw_bytes, val_type, get_by_uuid)
+            key = serialization._decode_tree(raw_bytes, key_type, get_by_uuid)""", "R07.1")
+F("C07", "Int16Codec four bytes wide", "serialization.py",
+  """    typname = "int16_t"
+    bytesize = 2""", """    typname = "int16_t"
+    bytesize = 4""", "R07.3")
+F("C07", "signedness dropped in IntegerCodec.decode only", "serialization.py",
+  """raw_bytes.read(cls.bytesize), byteorder="little", signed=cls.signed""",
+  """raw_bytes.read(cls.bytesize), byteorder="little", signed=False""", "R07.1")
+F("C07", "sequence encoder counts the subtypes", "serialization.py",
+  """        Uint64Codec.encode(out, len(sequence))""", """        Uint64Codec.encode(out, len(subtypes))""", "R07.2")
+F("C07", "variant index decoded from four bytes", "serialization.py",
+  """            raw_bytes.read(8), byteorder="little", signed=False""",
+  """            raw_bytes.read(4), byteorder="little", signed=False""", "R07.1")
+F("C07", "Addr mapped to the signed codec", "serialization.py",
+  """            "Addr": Uint64Codec,""", """            "Addr": Int64Codec,""", "R07.3")
+F("C07", "SetCodec.decode drops get_by_uuid", "serialization.py",
+  """            decoded_set.add(
+                serialization._decode_tree(raw_bytes, subtype, get_by_uuid)""",
+  """            decoded_set.add(
+                serialization._decode_tree(raw_bytes, subtype, None)""", "R07.3")
+F("C07", "UUIDCodec.decode always returns the plain UUID", "serialization.py",
+  """        return uuid if existing_node is None else existing_node""", """        return uuid""", "R07.4")
+F("C07", "OffsetCodec.decode does not resolve the element", "serialization.py",
+  """        element_uuid = UUIDCodec.decode(raw_bytes, get_by_uuid=get_by_uuid)""",
+  """        element_uuid = UUIDCodec.decode(raw_bytes)""", "R07.3")
+F("C07", "tuple decoder stops one short", "serialization.py",
+  """        for subtype in subtypes:
+            decoded_list.append(""", """        for subtype in subtypes[:-1]:
+            decoded_list.append(""", None, allow_error=True)
+F("C07", "_decode_tree looks up a different key than _encode_tree", "serialization.py",
+  """        codec = self.codecs[type_tree.name]
+        return codec.decode(""", """        codec = self.codecs[type_tree.name.lower()]
+        return codec.decode(""", "R07.3")
+F("C08", "big-endian integers in both directions", "serialization.py",
+  """raw_bytes.read(cls.bytesize), byteorder="little", signed=cls.signed""",
+  """raw_bytes.read(cls.bytesize), byteorder="big", signed=cls.signed""", "R08.1",
+  more=[("serialization.py", """val.to_bytes(cls.bytesize, byteorder="little", signed=cls.signed)""",
+         """val.to_bytes(cls.bytesize, byteorder="big", signed=cls.signed)""")])
+F("C08", "UTF-16 strings in both directions", "serialization.py",
+  """        encoded = val.encode("utf-8")""", """        encoded = val.encode("utf-16-le")""", "R08.1",
+  more=[("serialization.py", """return raw_bytes.read(size).decode("utf-8")""",
+         """return raw_bytes.read(size).decode("utf-16-le")""")])
+F("C08", "bool as four bytes both ways", "serialization.py",
+  """        return bool(raw_bytes.read(1) != b"\\x00")""", """        return bool(raw_bytes.read(4) != b"\\x00\\x00\\x00\\x00")""", "R08.1",
+  more=[("serialization.py", """        out.write(bytes([val]))""", """        out.write(int(val).to_bytes(4, byteorder="little"))""")])
+F("C08", "set without a count both ways", "serialization.py",
+  """        Uint64Codec.encode(out, len(items))
+        for item in items:
+            serialization._encode_tree(out, item, subtype)
+
+""", """        for item in items:
+            serialization._encode_tree(out, item, subtype)
+
+""", "R08.1")
+F("C08", "double as big-endian struct", "serialization.py",
+  """    struct_format = "<d\"""", """    struct_format = ">d\"""", "R08.1")
+F("C08", "variant index as uint32 both ways", "serialization.py",
+  """            raw_bytes.read(8), byteorder="little", signed=False""",
+  """            raw_bytes.read(4), byteorder="little", signed=False""", "R08.1",
+  more=[("serialization.py", """variant.index.to_bytes(8, byteorder="little")""",
+         """variant.index.to_bytes(4, byteorder="little")""")])
+F("C08", "Offset displacement before the UUID both ways", "serialization.py",
+  """        UUIDCodec.encode(out, val.element_id)
+        Uint64Codec.encode(out, val.displacement)""",
+  """        Uint64Codec.encode(out, val.displacement)
+        UUIDCodec.encode(out, val.element_id)""", "R08.1")
+T("C07", "string encoder with the default utf-8 argument", "serialization.py",
+  """        encoded = val.encode("utf-8")""", """        encoded = val.encode()""")
+T("C07", "mapping encoder iterating keys then indexing is outside: keep items() via local", "serialization.py",
+  """        for key, val in mapping.items():
+            serialization._encode_tree(out, key, key_type)
+            serialization._encode_tree(out, val, val_type)""",
+  """        for key, val in mapping.items():
+            enc = serialization._encode_tree
+            enc(out, key, key_type)
+            enc(out, val, val_type)""")
